@@ -97,6 +97,36 @@ def stale_check_rule(A, rule, entries, resources, guards_of, modes=("th", "mp"))
 
 
 # ---------------------------------------------------------------------------------------
+def shared_state_rule(A, rule):
+    """the store object is shared by all threads / calls: nothing but construction may write
+    its attributes (a per-call value parked in `self` is visible to, and overwritten by,
+    every concurrent call)"""
+    init_like = {f"{CLS}.__init__", f"{CLS}._set_default_algorithms"}
+    # helpers called only while constructing
+    for f in [fn for fn in A.p.funcs.values() if fn.cls == CLS]:
+        for n in ast.walk(f.node):
+            targets = []
+            if isinstance(n, ast.Assign):
+                targets = n.targets
+            elif isinstance(n, (ast.AugAssign, ast.AnnAssign)):
+                targets = [n.target]
+            for t in targets:
+                for x in ast.walk(t):
+                    a = self_attr(x) if isinstance(x, ast.Attribute) else None
+                    if a is None and isinstance(x, ast.Attribute) and isinstance(x.value, ast.Name) and x.value.id in (CLS, "cls"):
+                        a = x.attr
+                    if a is None or not isinstance(getattr(x, "ctx", None), ast.Store):
+                        continue
+                    rule.ob()
+                    rule.inst(f"{f.qual}:{n.lineno} assigns self.{a}")
+                    top = f
+                    while top.parent is not None:
+                        top = top.parent
+                    if top.qual not in init_like:
+                        rule.fail(f, n, f"`{norm(n)[:70]}` stores a per-call value in the shared store object: concurrent calls (and later calls) read and "
+                                  "overwrite each other's value", A.p.loc(f, n))
+
+
 def check_C07(A: Analysis, tier):
     rules = []
     ra = Rule("C07", "C07.a", "every create/write/rename/remove of an object, cid list or pid reference holds a "
@@ -136,6 +166,11 @@ def check_C07(A: Analysis, tier):
                         rd.fail(ev.func, ev.node, f"{ev.prim} on the cid list is reachable without a preceding fcntl.flock",
                                 A.p.loc(ev.func, ev.node))
     rules.append(rd)
+
+    rs = Rule("C07", "C07.g", "no method other than the constructor (and _set_default_algorithms) assigns an attribute of the shared "
+              "store object (no per-call state in `self`)", floor=10)
+    shared_state_rule(A, rs)
+    rules.append(rs)
 
     rg = Rule("C07", "C07.f", "a call releases only claims it took itself: no release is reached, on the normal path, on a "
               "rejection path or on an I/O-fault path, without the same claim being held by this call", floor=6)
